@@ -51,7 +51,7 @@ func (d DocSpec) Clone() DocSpec {
 
 var (
 	ElemNames = []string{"a", "b", "c", "a", "b", "a-1", "x:a", "d", "y:b"}
-	AttrNames = []string{"id", "k", "id", "x:k", "n"}
+	AttrNames = []string{"id", "k", "id", "x:k", "n", "xml:lang"}
 	Values    = []string{"1", "2", "21", "3", "3.5", "-1", "0", "abc", "ab", "b", "a", "", " ", " a  b ", "NaN", "1e2", "10", "aXb", "Abc", "é", "中a"}
 	NSURLs    = []string{"", "", "urn:x", "urn:y"}
 )
